@@ -1,4 +1,5 @@
 mod alone;
+mod c02;
 mod c09;
 mod c12;
 mod conv;
@@ -18,6 +19,7 @@ use framework::*;
 
 fn make_check(id: &str) -> Option<Box<dyn Check>> {
     match id {
+        "C02" => Some(Box::new(c02::C02::new())),
         "C09" => Some(Box::new(c09::C09::new())),
         "C12" => Some(Box::new(c12::C12::new())),
         "C13" => Some(Box::new(c13::C13::new())),
